@@ -18,7 +18,7 @@ CONSTANTS Vals, MaxRecs, MaxSrc, MaxK
 
 VARIABLES mode, readlog, base, seq
 
-vars == <<stream, total, cur, off, view, vc, sent, mode, readlog, base, seq>>
+vars == <<stream, total, cur, off, view, vc, sent, wp, mode, readlog, base, seq>>
 
 Bits == {0, 1}
 SeqsUpTo(S, n) == UNION { [1..k -> S] : k \in 0..n }
@@ -68,12 +68,18 @@ NextView ==
        \/ \E o \in -2..0 : SeekTo("end", o, VLen + o) /\ base' = VLen + o /\ seq' = <<>>
        \/ Pos(vc) /\ UNCHANGED <<base, seq>>
        \/ Remaining(VLen - vc) /\ UNCHANGED <<base, seq>>
-       \/ ReadNRefused /\ UNCHANGED <<base, seq>>
+       \/ ReadNRefused(-1) /\ UNCHANGED <<base, seq>>
+       \/ \E k \in 0..MaxK : ReadNRefused(k) /\ UNCHANGED <<base, seq>>
 
 NextSink ==
     /\ mode = "sink"
     /\ UNCHANGED <<mode, readlog, base, seq>>
-    /\ \/ \E d \in SeqsUpTo(Bits, 2) : \E r \in 0..Len(d) : Len(sent) < 4 /\ Accept(d, r, 4)
+    /\ \/ \E d \in SeqsUpTo(Bits, 2) : \E r \in 0..Len(d) : wp + r <= 4 /\ Accept(d, r, 4)
+       \/ \E t \in 0..Len(sent) : SeekW("start", t, t)
+       \/ \E o \in -1..1 : SeekW("cur", o, wp + o)
+       \/ SeekW("end", 0, Len(sent))
+       \/ SinkPos(wp)
+       \/ SinkRemaining(4 - wp, 4)
        \/ Sink(sent, 0, 0)
 
 Next == NextWire \/ NextOpen \/ NextView \/ NextSink
@@ -112,5 +118,14 @@ ReadAnswers ==
                 /\ Len(got) <= k
                 /\ got = Slice(vc, Len(got))
                 /\ (Len(got) = 0 => k = 0 \/ vc = VLen)
+(* a total back end may refuse an exact read only if it does not fit *)
+TotalRefusal == mode = "view" => \A k \in 0..MaxK : ENABLED ReadNRefused(k) <=> vc + k > VLen
 SinkIsAccepted == mode = "sink" => \A g \in SeqsUpTo(Bits, 4) : ENABLED Sink(g, 0, 0) => g = sent
+(* a write changes exactly the window [wp, wp + r) of the sink, a seek changes nothing *)
+WriteWindow == [][mode = "sink" =>
+                    /\ \A i \in 1..Len(sent) : (i <= wp \/ i > wp') => sent'[i] = sent[i]
+                    /\ Len(sent') >= Len(sent)
+                   ]_vars
+(* the version predicates accept exactly one answer *)
+PredOneAnswer == \A r \in BOOLEAN : ENABLED VersionPred("compatible", <<1, 2, 0>>, <<1, 1, 0>>, <<>>, r) => r = TRUE
 =============================================================================
